@@ -210,8 +210,12 @@ PROPS = {
         level_text="The policy gate in front of init/add/update is modelled with the zxcvbn estimate as a parameter: "
                    "store_change_implies_policy, refusal_changes_nothing, policy_ok_not_refused; condition_parser_exact "
                    "characterises newZXCVBNPolicy over a model of strings.Fields that is exact for every Go string (Unicode white "
-                   "space, invalid UTF-8; fields_are_words, fields_fuel_irrelevant, parsed_condition_has_three_words); "
-                   "bad_policy_stops_agent. Against the code: the real parser and "
+                   "space, invalid UTF-8; fields_are_words, fields_fuel_irrelevant, parsed_condition_has_three_words) and is "
+                   "PROVED to be strings.FieldsFunc(s, unicode.IsSpace) over Go's rune decoding "
+                   "(fields_is_strings_Fields; Model/Utf8.lean: decodeRune, isSpaceRune, fieldsRune); "
+                   "bad_policy_stops_agent. Against the code: strings.Fields, utf8.DecodeRuneInString and "
+                   "unicode.IsSpace themselves vs the model (6000 (120000) byte strings, every rune up to U+3100 and a "
+                   "stride above); the real parser and "
                    "NewStore on ~500 condition strings x 5 policy types; all write paths (agent interface, HTTP add, "
                    "HTTP update by admin / by the user's session / by old password, CLI binary add/update/init) on real "
                    "agents with thresholds placed around the observed estimate, compared with zxcvbn-go called directly.",
